@@ -219,6 +219,8 @@ def run_case(case, rng):
             lp_last = {}
 
             def after_lp(args, kwargs, out, exc):
+                if exc is None:
+                    lp_last.update(last_lp_status=int(getattr(out, "status", -1)), last_lp_message=str(getattr(out, "message", ""))[:120])
                 if exc is None and getattr(out, "x", None) is not None:
                     x_ = np.asarray(out.x, dtype=float)
                     pos_ = x_[:-1][x_[:-1] > 0]
